@@ -326,6 +326,27 @@ func runC20(hn string, steps []c20Step, at int, fault string) (issues []string, 
 				w.MQ.ClosedHandler()(cause)
 			}
 		}()
+		// while Stop is still under way (it may wait for connections), nothing new is accepted
+		select {
+		case <-done:
+		case <-time.After(30 * time.Millisecond):
+			if c, err := dialSock(w); err == nil {
+				st.issues = append(st.issues, "accepted-while-stopping: a new WebSocket connection was accepted while the service was stopping")
+				st.clients = append(st.clients, c)
+			}
+			rr := httptest.NewRecorder()
+			req, _ := http.NewRequest("GET", "/api/test/m", nil)
+			hd := make(chan struct{})
+			go func() { defer close(hd); w.Serv.ServeHTTP(rr, req) }()
+			select {
+			case <-hd:
+				if rr.Code != 503 {
+					st.issues = append(st.issues, fmt.Sprintf("served-while-stopping: HTTP GET during Stop answered %d", rr.Code))
+				}
+			case <-time.After(10 * time.Second):
+				st.issues = append(st.issues, "served-while-stopping: HTTP GET during Stop did not return")
+			}
+		}
 		select {
 		case <-done:
 		case <-time.After(20 * time.Second):
